@@ -71,6 +71,46 @@ from .variable import Variable
 from .where import Where
 
 
+PP_IF_TOKEN = re.compile(
+    r"(?P<ws>\s+)|(?P<num>0[xX][0-9a-fA-F]+[uUlL]*|\d+[uUlL]*)|(?P<name>[A-Za-z_]\w*)"
+    r"|(?P<op>&&|\|\||==|!=|<=|>=|<<|>>|[-+*/%<>!~&|^()])|(?P<bad>.)"
+)
+PP_IF_UNARY = {
+    "!": lambda a: int(not a),
+    "~": lambda a: ~a,
+    "-": lambda a: -a,
+    "+": lambda a: a,
+}
+PP_IF_BINARY = {
+    "||": (1, lambda a, b: bool(a) or bool(b)),
+    "&&": (2, lambda a, b: bool(a) and bool(b)),
+    "|": (3, lambda a, b: a | b),
+    "^": (4, lambda a, b: a ^ b),
+    "&": (5, lambda a, b: a & b),
+    "==": (6, lambda a, b: a == b),
+    "!=": (6, lambda a, b: a != b),
+    "<": (7, lambda a, b: a < b),
+    ">": (7, lambda a, b: a > b),
+    "<=": (7, lambda a, b: a <= b),
+    ">=": (7, lambda a, b: a >= b),
+    "<<": (8, lambda a, b: a << b if 0 <= b < 64 else 0),
+    ">>": (8, lambda a, b: a >> b if 0 <= b < 64 else 0),
+    "+": (9, lambda a, b: a + b),
+    "-": (9, lambda a, b: a - b),
+    "*": (10, lambda a, b: a * b),
+    "/": (10, lambda a, b: pp_if_div(a, b)),
+    "%": (10, lambda a, b: a - b * pp_if_div(a, b)),
+}
+
+
+def pp_if_div(a: int, b: int) -> int:
+    """C integer division (truncating); division by zero yields 0"""
+    if b == 0:
+        return 0
+    quot = abs(a) // abs(b)
+    return quot if (a < 0) == (b < 0) else -quot
+
+
 def get_line_context(line: str) -> tuple[str, None] | tuple[str, str]:
     """Get context of ending position in line (for completion)
 
@@ -2037,52 +2077,88 @@ def preprocess_file(
     # For "if" statements all blocks are excluded except the "else" block if present
     # For "ifndef" statements all blocks excluding the first block are excluded
     def eval_pp_if(text, defs: dict = None):
-        def replace_ops(expr: str):
-            expr = expr.replace("&&", " and ")
-            expr = expr.replace("||", " or ")
-            expr = expr.replace("!=", " <> ")
-            expr = expr.replace("!", " not ")
-            expr = expr.replace(" <> ", " != ")
-            return expr
+        """Evaluate the integer constant expression of an ``#if``/``#elif``
+        directive with C semantics, without handing any text to ``eval``"""
 
-        def replace_defined(line: str):
-            i0 = 0
-            out_line = ""
-            for match in FRegex.DEFINED.finditer(line):
-                if match.group(1) in defs:
-                    out_line += line[i0 : match.start(0)] + "(@$@)"
-                else:
-                    out_line += line[i0 : match.start(0)] + "(%$%)"
-                i0 = match.end(0)
-            if i0 < len(line):
-                out_line += line[i0:]
-            return out_line
+        def tokenize(expr: str) -> list:
+            tokens = []
+            for tok in PP_IF_TOKEN.finditer(expr):
+                if tok.lastgroup == "bad":
+                    raise ValueError(f"Unexpected character {tok.group()}")
+                if tok.lastgroup != "ws":
+                    tokens.append((tok.lastgroup, tok.group()))
+            return tokens
 
-        def replace_vars(line: str):
-            i0 = 0
-            out_line = ""
-            for match in FRegex.WORD.finditer(line):
-                if match.group(0) in defs:
-                    out_line += line[i0 : match.start(0)] + defs[match.group(0)]
-                else:
-                    out_line += line[i0 : match.start(0)] + "False"
-                i0 = match.end(0)
-            if i0 < len(line):
-                out_line += line[i0:]
-            out_line = out_line.replace("@$@", "True")
-            out_line = out_line.replace("%$%", "False")
-            return out_line
+        def defined(tokens: list, pos: int):
+            # defined NAME  |  defined ( NAME )
+            paren = pos < len(tokens) and tokens[pos][1] == "("
+            if paren:
+                pos += 1
+            if pos >= len(tokens) or tokens[pos][0] != "name":
+                raise ValueError("Expected a macro name after defined")
+            name = tokens[pos][1]
+            pos += 1
+            if paren:
+                if pos >= len(tokens) or tokens[pos][1] != ")":
+                    raise ValueError("Missing ) after defined")
+                pos += 1
+            return int(name in defs), pos
+
+        def primary(tokens: list, pos: int, depth: int):
+            if pos >= len(tokens):
+                raise ValueError("Unexpected end of expression")
+            kind, tok = tokens[pos]
+            if kind == "num":
+                return int(tok.rstrip("uUlL"), 0), pos + 1
+            if kind == "name":
+                if tok == "defined":
+                    return defined(tokens, pos + 1)
+                value = defs.get(tok)
+                if value == "True":  # macro defined without a body
+                    return 1, pos + 1
+                if isinstance(value, str) and depth < 16:
+                    return evaluate(value, depth + 1), pos + 1
+                return 0, pos + 1  # undefined or function-like macros are 0
+            if tok == "(":
+                value, pos = binary(tokens, pos + 1, 0, depth)
+                if pos >= len(tokens) or tokens[pos][1] != ")":
+                    raise ValueError("Missing )")
+                return value, pos + 1
+            if tok in PP_IF_UNARY:
+                value, pos = primary(tokens, pos + 1, depth)
+                return PP_IF_UNARY[tok](value), pos
+            raise ValueError(f"Unexpected token {tok}")
+
+        def binary(tokens: list, pos: int, min_prec: int, depth: int):
+            lhs, pos = primary(tokens, pos, depth)
+            while pos < len(tokens) and tokens[pos][1] in PP_IF_BINARY:
+                prec, func = PP_IF_BINARY[tokens[pos][1]]
+                if prec < min_prec:
+                    break
+                rhs, pos = binary(tokens, pos + 1, prec + 1, depth)
+                lhs = int(func(lhs, rhs))
+                if not -(2**63) <= lhs < 2**64:
+                    raise ValueError("Integer overflow")
+            return lhs, pos
+
+        def evaluate(expr: str, depth: int) -> int:
+            tokens = tokenize(expr)
+            # Bound the total work (and hence the nesting) of one directive
+            budget[0] -= len(tokens)
+            if budget[0] < 0:
+                raise ValueError("Expression too long")
+            value, pos = binary(tokens, 0, 0, depth)
+            if pos != len(tokens):
+                raise ValueError("Trailing tokens")
+            return value
 
         if defs is None:
             defs = {}
-        out_line = replace_defined(text)
-        out_line = replace_vars(out_line)
+        budget = [256]
         try:
-            line_res = eval(replace_ops(out_line))
-        except:
+            return evaluate(text, 0) != 0
+        except (ValueError, RecursionError):
             return False
-        else:
-            return line_res
 
     def expand_func_macro(def_name: str, def_value: tuple[str, str]):
         def_args, sub = def_value
